@@ -1,4 +1,4 @@
-CONSTANTS N = 3 MaxKids = 2
+CONSTANTS N = 3 MaxKids = 2 WithOutside = TRUE KindShifts = {0}
 SPECIFICATION Spec
 INVARIANT DoneOK PlaceholderNeverRead SlotsFilled
 PROPERTY Terminates
